@@ -7,6 +7,7 @@ Import ListNotations.
 Open Scope Z_scope.
 
 (** the inner candidates of [s,e): strictly inside, length >= m, >= m surrounding samples *)
+From SK Require Import Check.Scores Check.CbsCheck Proofs.CheckerSoundness Proofs.ValidCuts.
 Theorem C09_inner_candidates : forall s e m a z, In (a, z) (anomaly_intervals s e m) <->
   (s < a /\ a + m <= z /\ z < e /\ m <= (e - z) + (a - s))%nat.
 Proof. exact anomaly_intervals_spec. Qed.
@@ -70,3 +71,17 @@ Print Assumptions C09_threshold_monotone.
 Print Assumptions C09_total.
 Print Assumptions C09_ext.
 Print Assumptions C09_m1_len2_has_no_inner.
+
+(** ---- added: statements re-derived from the lemma files by tools/append_props.py ---- *)
+Theorem C09_checker_sound : forall c : cbs_case, cbs_spec_ok c = true -> (forall (s e a z : nat) (v : Z), In (s, e, (a, z), v) (bc_rows c) -> anomaly_intervals s e (bc_m c) = [] /\ v = 0 \/ In (a, z) (anomaly_intervals s e (bc_m c)) /\ ((s < a)%nat /\ (a + bc_m c <= z)%nat /\ (z < e)%nat /\ (bc_m c <= e - z + (a - s))%nat) /\ v = ls_agg (bc_score c) s a z e /\ (forall a' z' : nat, In (a', z') (anomaly_intervals s e (bc_m c)) -> ls_agg (bc_score c) s a' z' e <= v)) /\ ((forall a z : nat, In (a, z) (bc_anoms c) -> (1 <= a)%nat /\ (a + bc_m c <= z)%nat /\ (z + 1 <= bc_n c)%nat) /\ (forall i : nat, (S i < length (bc_anoms c))%nat -> (snd (nthP (bc_anoms c) i) <= fst (nthP (bc_anoms c) (S i)))%nat)) /\ (forall a z : nat, In (a, z) (bc_anoms c) -> exists (s e : nat) (v : Z), In (s, e, (a, z), v) (bc_rows c) /\ bc_thr c < v) /\ (forall (s e : nat) (ab : nat * nat) (v : Z), In (s, e, ab, v) (bc_rows c) -> bc_thr c < v -> exists a z : nat, In (a, z) (bc_anoms c) /\ (s < z)%nat /\ (a < e)%nat).
+Proof. exact @cbs_spec_ok_sound. Qed.
+
+Theorem C09_model_equality_checker_sound : forall c : cbs_case, cbs_model_eq c = true -> let ivs := seeded_intervals (bc_n c) (2 * bc_m c) (bc_lens c) in map brow_iv (bc_rows c) = ivs /\ (exists am : list (nat * nat * Z), cbs (ls_agg (bc_score c)) (bc_m c) (bc_thr c) ivs = Some (bc_anoms c, am) /\ map fst am = map brow_inner (bc_rows c) /\ map snd am = map brow_score (bc_rows c)).
+Proof. exact @cbs_model_eq_sound. Qed.
+
+Theorem C09_only_valid_cuts_matter : forall (LS1 LS2 : nat -> nat -> nat -> nat -> Z) (m : nat) (thr : Z) (ivs : list (nat * nat)), (forall s e a z : nat, In (s, e) ivs -> (s < a)%nat -> (a + m <= z)%nat -> (z < e)%nat -> (m <= a - s + (e - z))%nat -> LS1 s a z e = LS2 s a z e) -> cbs LS1 m thr ivs = cbs LS2 m thr ivs.
+Proof. exact @cbs_ext_valid_arith. Qed.
+
+Print Assumptions C09_checker_sound.
+Print Assumptions C09_model_equality_checker_sound.
+Print Assumptions C09_only_valid_cuts_matter.
